@@ -107,7 +107,16 @@ type seen struct {
 type engine struct {
 	spec    *common.Spec
 	verdict [3]int // IsValidBlockHash, IsValidVersionedHashes, NotifyNewPayload
+	flavour int    // which kind of error an "error" verdict returns
 	calls   []seen
+}
+
+// An engine client fails in different ways; all of them are engine faults while the CALLER's context is
+// alive — in particular the client's own timeout or shutdown, which surface as wrapped context errors.
+var engineErrors = []error{
+	errors.New("scripted engine error"),
+	fmt.Errorf("engine request: %w", context.DeadlineExceeded),
+	fmt.Errorf("engine client closed: %w", context.Canceled),
 }
 
 func (e *engine) answer(i int) (bool, error) {
@@ -115,7 +124,7 @@ func (e *engine) answer(i int) (bool, error) {
 	case vInvalid:
 		return false, nil
 	case vError:
-		return false, errors.New("scripted engine error")
+		return false, engineErrors[(e.flavour+i)%len(engineErrors)]
 	}
 	return true, nil
 }
@@ -311,7 +320,7 @@ func engineFaults(r *report.Run, l *sim.Lock, st *step, fork int, refPost *refsp
 			v[0], v[2] = c%3, c/3
 		}
 		spec := *l.LibSpec
-		eng := &engine{spec: &spec, verdict: v}
+		eng := &engine{spec: &spec, verdict: v, flavour: int(st.slot) + code}
 		spec.ExecutionEngine = eng
 		post, err, panicked := runStep(l, &spec, context.Background(), st)
 		r.Eval(1)
@@ -328,7 +337,7 @@ func engineFaults(r *report.Run, l *sim.Lock, st *step, fork int, refPost *refsp
 			// (a transition that skipped the engine would leave a state whose root does not match, and "fail" for that reason only)
 			nv := *st
 			nv.noValidate = true
-			eng2 := &engine{spec: &spec, verdict: v}
+			eng2 := &engine{spec: &spec, verdict: v, flavour: int(st.slot) + code + 1}
 			spec.ExecutionEngine = eng2
 			_, err2, pan2 := runStep(l, &spec, context.Background(), &nv)
 			r.Eval(1)
@@ -517,7 +526,7 @@ func engineVerdictOnly(r *report.Run, l *sim.Lock, st *step, fork int) *report.F
 			v[0], v[2] = code%3, code/3
 		}
 		spec := *l.LibSpec
-		spec.ExecutionEngine = &engine{spec: &spec, verdict: v}
+		spec.ExecutionEngine = &engine{spec: &spec, verdict: v, flavour: int(st.slot) + code}
 		_, err, panicked := runStep(l, &spec, context.Background(), &nv)
 		r.Eval(1)
 		desc := fmt.Sprintf("%s block at slot %d (undisturbed run already diverges), engine verdicts (block-hash,versioned-hashes,new-payload)=%v", forkName, st.slot, v)
@@ -540,7 +549,7 @@ func isDefaultPayload(sb *refspec.SignedBlock) bool {
 func TestCheck(t *testing.T) {
 	r := report.Begin("C18")
 	defer r.Finish()
-	r.Rule("for every ProcessSlots / StateTransition step of generated chains: poll count N measured with a counting context, then one re-run from a fresh copy per k in 1..N (all of them when N<=400, else first/last 50 and ~300 of the rest) with Canceled from the k-th poll on; for every payload-carrying block the full product of engine verdicts {valid,invalid,error} per engine call (9 for bellatrix/capella, 27 for deneb). non-trivial = an injected cancellation or engine verdict; distinct key = (fork, step kind, polling call site) / (fork, verdict triple)")
+	r.Rule("for every ProcessSlots / StateTransition step of generated chains: poll count N measured with a counting context, then one re-run from a fresh copy per k in 1..N (all of them when N<=400, else first/last 50 and ~300 of the rest) with Canceled from the k-th poll on; for every payload-carrying block the full product of engine verdicts {valid,invalid,error} per engine call (the error rotating over a plain error and errors wrapping context.DeadlineExceeded / context.Canceled while the caller's context is alive) (9 for bellatrix/capella, 27 for deneb). non-trivial = an injected cancellation or engine verdict; distinct key = (fork, step kind, polling call site) / (fork, verdict triple)")
 	r.Assume("cancellation between two polls is indistinguishable from cancellation at the next poll; work after the last poll cannot be interrupted by construction", "steps on which the undisturbed library run already fails or diverges from the reference (C01/C02) end the case without a verdict")
 	replay := func(raw json.RawMessage) *report.Failure {
 		var cc sim.ChainCase
